@@ -15,9 +15,12 @@ import (
 	"fmt"
 	"net/http"
 	"net/http/httptest"
+	"os"
+	"path/filepath"
 	"sort"
 	"strconv"
 	"strings"
+	"testing/synctest"
 	"time"
 
 	"github.com/go-openapi/strfmt"
@@ -188,6 +191,11 @@ type Inst struct {
 	Silencer *silence.Silencer
 	API      *apiv2.API
 	BC       [][]byte // captured broadcasts (since last TakeBC)
+	// the real Silences.Maintenance loop (World.MaintP > 0): GC + snapshot file every MaintP, and once more on stop
+	stopc    chan struct{}
+	done     chan struct{}
+	file     string
+	nextTick int64 // offset of the next maintenance tick
 }
 
 type World struct {
@@ -196,6 +204,8 @@ type World struct {
 	MaxSil    int // 0: unlimited
 	MaxSize   int // 0: unlimited
 	Insts     []*Inst
+	MaintP    time.Duration     // period of every instance's Maintenance loop, 0 = none
+	dir       string            // scratch directory of the snapshot files
 	alias     map[string]string // real id -> alias
 	real      map[string]string // alias -> real id
 	nAlias    int
@@ -211,8 +221,54 @@ func NewWorld(n int, retention time.Duration, maxSil, maxSize int) *World {
 	return w
 }
 
+// NewWorldMaint: as NewWorld, every instance also runs the real Maintenance loop with period p on a snapshot
+// file of its own.  The caller must Close the world.
+func NewWorldMaint(n int, retention time.Duration, maxSil, maxSize int, p time.Duration) *World {
+	w := &World{T0: time.Now(), Retention: retention, MaxSil: maxSil, MaxSize: maxSize, MaintP: p,
+		alias: map[string]string{}, real: map[string]string{}}
+	if p > 0 {
+		d, err := os.MkdirTemp("", "verif-silx-")
+		if err != nil {
+			panic(err)
+		}
+		w.dir = d
+	}
+	for i := 0; i < n; i++ {
+		w.Insts = append(w.Insts, nil)
+		w.NewInst(i, nil, false)
+	}
+	return w
+}
+
+// stopMaint ends instance i's Maintenance loop; the loop writes its shutdown snapshot first.
+func (w *World) stopMaint(i int) {
+	in := w.Insts[i]
+	if in != nil && in.stopc != nil {
+		close(in.stopc)
+		<-in.done
+		in.stopc = nil
+	}
+}
+
+func (w *World) Close() {
+	for i := range w.Insts {
+		w.stopMaint(i)
+	}
+	if w.dir != "" {
+		os.RemoveAll(w.dir)
+	}
+}
+
+// NextTick is the offset of instance i's next maintenance tick (-1: no maintenance loop).
+func (w *World) NextTick(i int) int64 {
+	if w.MaintP == 0 || w.Insts[i].stopc == nil {
+		return -1
+	}
+	return w.Insts[i].nextTick
+}
+
 func (w *World) Abs(off int64) time.Time { return w.T0.Add(time.Duration(off)) }
-func (w *World) Rel(t time.Time) int64    { return int64(t.Sub(w.T0)) }
+func (w *World) Rel(t time.Time) int64   { return int64(t.Sub(w.T0)) }
 
 func (w *World) SleepTo(off int64) {
 	if d := w.Abs(off).Sub(time.Now()); d > 0 {
@@ -251,6 +307,7 @@ func (w *World) Real(alias string) string {
 
 // NewInst creates instance i; with load it starts from the snapshot (possibly empty).
 func (w *World) NewInst(i int, snapshot []byte, load bool) {
+	w.stopMaint(i)
 	o := silence.Options{Retention: w.Retention, Metrics: prometheus.NewRegistry()}
 	if w.MaxSil > 0 {
 		o.Limits.MaxSilences = func() int { return w.MaxSil }
@@ -274,6 +331,15 @@ func (w *World) NewInst(i int, snapshot []byte, load bool) {
 	}
 	in.API = api
 	w.Insts[i] = in
+	if w.MaintP > 0 {
+		in.file = filepath.Join(w.dir, fmt.Sprintf("silences-%d", i))
+		in.stopc, in.done = make(chan struct{}), make(chan struct{})
+		in.nextTick = w.Rel(time.Now()) + int64(w.MaintP)
+		go func() {
+			defer close(in.done)
+			s.Maintenance(w.MaintP, in.file, in.stopc, nil)
+		}()
+	}
 }
 
 var opToPB = map[byte]pb.Matcher_Type{'e': pb.Matcher_EQUAL, 'n': pb.Matcher_NOT_EQUAL, 'r': pb.Matcher_REGEXP, 'x': pb.Matcher_NOT_REGEXP}
@@ -585,6 +651,29 @@ func (w *World) Exec(line string) string {
 			return "error " + w.Dump(j)
 		}
 		return fmt.Sprintf("%s %s %d %s", ov, MeshesStr(l), len(w.TakeBC(j)), w.Dump(j))
+	case "mtick":
+		// the Maintenance loop's tick at exactly this instant: GC + snapshot file (observed like a gc)
+		before := len(w.State(i))
+		w.SleepTo(hx.Atoi64(t[2]))
+		synctest.Wait() // the loop's goroutine handles the tick that fired at this instant
+		if in.stopc != nil && in.nextTick == hx.Atoi64(t[2]) {
+			in.nextTick += int64(w.MaintP)
+		}
+		return fmt.Sprintf("%d %s", before-len(w.State(i)), w.Dump(i))
+	case "mstop":
+		// shutdown: the loop runs one more maintenance (GC + snapshot) and ends
+		before := len(w.State(i))
+		w.SleepTo(hx.Atoi64(t[2]))
+		w.stopMaint(i)
+		return fmt.Sprintf("%d %s", before-len(w.State(i)), w.Dump(i))
+	case "mload":
+		// the next start: a new instance from the snapshot FILE the loop left behind
+		b, err := os.ReadFile(in.file)
+		if err != nil {
+			b = nil
+		}
+		w.NewInst(i, b, true)
+		return w.Dump(i)
 	case "gc":
 		w.SleepTo(hx.Atoi64(t[2]))
 		n, err := in.S.GC()
